@@ -218,15 +218,19 @@ where
 
     fn next(&mut self) -> Option<Self::Item> {
         if !self.c.next_called {
-            if let Bound::Included(s) = self.bounds.start_bound() {
-                let exists = self.c.seek(*s);
+            let start = match self.bounds.start_bound() {
+                Bound::Included(s) => Some((*s, false)),
+                Bound::Excluded(s) => Some((*s, true)),
+                Bound::Unbounded => None,
+            };
+            if let Some((s, exclusive)) = start {
+                self.c.seek(s);
                 // if the start key is not there,
                 // skip to the key after where it should be.
-                if !exists {
-                    if let Some(data) = self.c.current() {
-                        if data.key() < *s {
-                            self.c.next();
-                        }
+                // An excluded start key is skipped as well.
+                if let Some(data) = self.c.current() {
+                    if data.key() < s || (exclusive && data.key() == s) {
+                        self.c.next();
                     }
                 }
             }
